@@ -725,11 +725,7 @@ Inductive item_ok (cf : config) : pitem -> sitem -> text -> value -> value -> Pr
 | io_show_float : forall b b' after, finite b -> stops_float after -> float_close 6 b b' ->
     look_value cf TFloat (show_value cf (VFloat b) ++ after) = Some (VFloat b', length (show_value cf (VFloat b))) ->
     item_ok cf (PShow (VFloat b)) (SLook TFloat) after (VFloat b) (VFloat b')
-| io_num_dec : forall sp ssp z after,
-    conv_signed (n_conv sp) = true ->
-    (n_conv ssp = 100 \/ (n_conv ssp = 105 /\ n_zero sp = false)) ->
-    in_range (n_long sp) z -> in_range (n_long ssp) z ->
-    (n_long ssp = false -> cf_int_signext cf = true) -> stops_int after ->
+| io_num_int : forall sp ssp z after, int_directive_ok cf sp ssp z after ->
     item_ok cf (PNum sp (VInt z)) (SNum ssp) after (VInt z) (VInt z)
 | io_num_float : forall sp ssp b b' after, finite b -> stops_float after ->
     float_close (float_prec sp) b b' ->
@@ -743,7 +739,7 @@ Proof.
   intros cf it si after v v' Hcf H. destruct H.
   - split; [intros t; discriminate|]. cbn [conv_reads print_item]. now apply show_value_reads.
   - split; [intros t; discriminate|]. cbn [conv_reads print_item]. assumption.
-  - split; [intros t; discriminate|]. cbn [conv_reads print_item]. now apply int_dec_roundtrip.
+  - split; [intros t; discriminate|]. cbn [conv_reads print_item]. now apply int_directive_roundtrip.
   - split; [intros t; discriminate|]. cbn [conv_reads print_item]. assumption.
 Qed.
 
@@ -848,11 +844,7 @@ Fixpoint wf_seq (cf : config) (its : list pitem) (sits : list sitem) (rest : tex
        | _ => showable v /\ ends_token v (print_items cf r ++ rest)
        end) /\ wf_seq cf r sr rest
   | PNum sp (VInt z) :: r, SNum ssp :: sr =>
-      conv_signed (n_conv sp) = true /\
-      (n_conv ssp = 100 \/ (n_conv ssp = 105 /\ n_zero sp = false)) /\
-      in_range (n_long sp) z /\ in_range (n_long ssp) z /\
-      (n_long ssp = false -> cf_int_signext cf = true) /\
-      stops_int (print_items cf r ++ rest) /\ wf_seq cf r sr rest
+      int_directive_ok cf sp ssp z (print_items cf r ++ rest) /\ wf_seq cf r sr rest
   | PNum sp (VFloat b) :: r, SNum ssp :: sr =>
       conv_is_float (n_conv sp) = true /\ plain_fspec sp /\
       conv_is_float (n_conv ssp) = true /\ conv_is_int (n_conv ssp) = false /\ n_long ssp = true /\
@@ -876,7 +868,7 @@ Proof.
       * destruct Hv as [Hf Hst]. destruct (show_float_item cf b _ Hcf Hf Hst) as [b' Hi].
         exists (VFloat b' :: vs'). now constructor.
       * exists (VStr s :: vs'). constructor; [|assumption]. now apply (io_show_exact cf (VStr s)).
-    + destruct H as (G1 & G2 & G3 & G4 & G5 & Hst & H). destruct (IH _ _ Hcf H) as [vs' Hs].
+    + destruct H as (G1 & H). destruct (IH _ _ Hcf H) as [vs' Hs].
       unfold values_of. cbn [flat_map app]. fold (values_of its).
       exists (VInt z :: vs'). constructor; [|assumption]. now constructor.
     + destruct H as (H1 & H2 & H3 & H4 & H5 & Hf & Hst & H). destruct (IH _ _ Hcf H) as [vs' Hs].
